@@ -518,6 +518,11 @@ def model(m, s, fi, t, fk, args, site):
         a, b = m._freeze(s, A[0]), m._freeze(s, A[1])
         if _concrete(a) and _concrete(b):
             return (a == b) if n == "eq" else (a != b)
+        r = _struct_eq(a, b)
+        if r is not None:
+            if isinstance(r, bool):
+                return r if n == "eq" else (not r)
+            return r if n == "eq" else T("not", r)
     if n in ("lt", "le", "gt", "ge") and len(args) == 2 and all(isinstance(x, int) for x in A):
         a, b = A
         return {"lt": a < b, "le": a <= b, "gt": a > b, "ge": a >= b}[n]
@@ -531,6 +536,45 @@ def model(m, s, fi, t, fk, args, site):
         if rb is not None:
             return rb[0] <= A[1] < rb[1]
     return NotImplemented
+
+
+def _struct_eq(a, b):
+    """equality of two values of library container types (Option / tuples / byte cells): True / False / the one cell
+    comparison it hinges on; None when it is not that simple"""
+    if isinstance(a, (int, bool)) and isinstance(b, (int, bool)):
+        return a == b
+    cell = lambda x: isinstance(x, T) and x[0] in ("in", "cast", "binop")
+    if (cell(a) and isinstance(b, int)) or (cell(b) and isinstance(a, int)):
+        return T("binop", "Eq", a, b) if cell(a) else T("binop", "Eq", b, a)
+    if isinstance(a, Adt) and isinstance(b, Adt) and a.name == b.name and a.name in (OPT, RES):
+        if a.variant != b.variant:
+            return False
+        pend = None
+        for x, y in zip(a.fields, b.fields):
+            r = _struct_eq(x, y)
+            if r is None:
+                return None
+            if r is False:
+                return False
+            if r is not True:
+                if pend is not None:
+                    return None
+                pend = r
+        return pend if pend is not None else True
+    if isinstance(a, Tup) and isinstance(b, Tup) and len(a) == len(b) and len(a) <= 4:
+        pend = None
+        for x, y in zip(a, b):
+            r = _struct_eq(x, y)
+            if r is None:
+                return None
+            if r is False:
+                return False
+            if r is not True:
+                if pend is not None:
+                    return None
+                pend = r
+        return pend if pend is not None else True
+    return None
 
 
 def _convert(v):
